@@ -199,6 +199,26 @@ fn run_spec<T: Clone + Debug>(st: &mut Stats, sp: &Spec<T>, thorough: bool) {
           }
         }
       }
+      // the sentinel's length field is meaningless and to be ignored by the receiver (RTPS 9.4.2.11); other
+      // implementations do not always write 0 there
+      if let Some((_, off, _)) = ps.last() {
+        for slen in [4u16, 8, 0xfffc] {
+          st.foreign_splices += 1;
+          let mut b2 = bytes.clone();
+          let w = if le { slen.to_le_bytes() } else { slen.to_be_bytes() };
+          b2[*off + 2] = w[0];
+          b2[*off + 3] = w[1];
+          let case = format!("{cname} [{enc:?}] with PID_SENTINEL length field {slen}");
+          match (sp.de)(&b2, enc) {
+            Ok(back) => {
+              if !(sp.eq)(&back, &t) {
+                record(st, &format!("C15:sentinel-length-disturbs:{}", sp.tname), "the sentinel's length field changed the decoded value".to_string(), &case);
+              }
+            }
+            Err(e) => record(st, &format!("C15:sentinel-length-rejected:{}", sp.tname), format!("data whose sentinel carries a non-zero length field is rejected: {e}"), &case),
+          }
+        }
+      }
       st.classes.insert(format!("{} foreign {} positions {enc:?}", sp.tname, ps.len()));
     }
   }
